@@ -71,6 +71,8 @@ func init() {
 }
 
 func runC09(p *chk.Prog, r *chk.Report) {
+	// a configuration the speaker refused is offered again (COMPARE-BEFORE-APPLY, shared with C18)
+	c18Compare(p, r)
 	// in frr-k8s mode what the sessions were last set to is what reaches the cluster (K8S-DELIVER, shared with C19)
 	c19K8s(p, r)
 	c09PoolCurrent(p, r)
@@ -218,6 +220,24 @@ func c09Exit(p *chk.Prog, r *chk.Report) {
 	for _, e := range es {
 		w := g.BranchAlways(e, isDel)
 		y.Check("SetBalancer:changed-addresses-withdraw-first", posOf(w, f), !w.Found, "", "a changed address set does not withdraw the old announcement first")
+		// ... and a withdrawal that failed is reported (the reconciler retries): going on to the handlers leaves what was
+		// not withdrawn in place - the layer-2 handler adds to what it announces, it does not replace it - and nothing
+		// asks for another sync
+		failed := g.GPat(true, "ST == controllers.SyncStateError", chk.H("ST", definedBy(g, "RECV.deleteBalancer(L, N, R)")))
+		fes := g.EdgesImplying(failed)
+		okFail := len(fes) >= 1
+		for _, fe := range fes {
+			if w3 := g.BranchAlways(fe, func(n ast.Node) bool {
+				rs, isRet := n.(*ast.ReturnStmt)
+				if !isRet || len(rs.Results) != 1 {
+					return false
+				}
+				return isObjNamed(f, ctrlPkg+".SyncStateError")(rs.Results[0]) || definedBy(g, "RECV.deleteBalancer(L, N, R)")(rs.Results[0])
+			}); w3.Found {
+				okFail = false
+			}
+		}
+		y.Check("SetBalancer:failed-withdrawal-is-reported", f.Pos(), okFail, "", "a failed withdrawal of the previous addresses is not returned as SyncStateError: the old address stays announced next to the new one and no retry is scheduled")
 		if loop != nil {
 			w2 := g.MustPass(chk.Site{}, func(n ast.Node) bool { return n == ast.Node(loop.X) }, false, func(n ast.Node) bool {
 				return len(e.B.Nodes) > 0 && n == e.B.Nodes[len(e.B.Nodes)-1]
